@@ -164,6 +164,38 @@ theorem lzwGo_no_panic (L : Nat) (e : Bool) (q : Pan) : ∀ fuel n st, lzwGo L e
   fun_induction lzwGo L e fuel n st
   all_goals (try simp_all [Res.pre_panic])
 
+/-! ### no panics anywhere (after the repairs of C08-F1 and C08-F2) -/
+
+theorem a85Horner_no_panic (q : Pan) : ∀ v g, a85Horner v g ≠ .panic q := by
+  intro v g
+  fun_induction a85Horner v g <;> simp_all
+
+theorem a85Fin_no_panic (L n : Nat) (g : List Nat) (q : Pan) : a85Fin L n g ≠ .panic q := by
+  unfold a85Fin
+  split
+  · simp
+  · have := a85Horner_no_panic q 0 (g ++ List.replicate (5 - g.length) 117)
+    unfold a85Value
+    split <;> simp_all
+    split <;> simp
+
+theorem a85Go_no_panic (L : Nat) (q : Pan) : ∀ n g cs, a85Go L n g cs ≠ .panic q := by
+  intro n g cs
+  fun_induction a85Go L n g cs
+  all_goals (try simp_all [Res.pre_panic, a85Fin_no_panic])
+  all_goals (rename_i hv; exact absurd hv (a85Horner_no_panic _ 0 _))
+
+theorem pngRows_no_panic (bpp rb : Nat) (q : Pan) : ∀ k prev data, pngRows bpp rb k prev data ≠ .panic q := by
+  intro k prev data
+  fun_induction pngRows bpp rb k prev data <;> simp_all [Res.pre_panic]
+
+theorem applyPredictor_no_panic (data : List Nat) (p : Nat) (d : Dict) (q : Pan) :
+    applyPredictor data p d ≠ .panic q := by
+  unfold applyPredictor tiffPredictor pngAdvanced
+  simp only []
+  repeat' split
+  all_goals (first | (simp; done) | exact pngRows_no_panic _ _ _ _ _ _)
+
 /-! ### read_to_end_limited -/
 
 theorem readToEndLimited_ok (L : Nat) : ∀ n cs o, readToEndLimited L n cs = .ok o ↔
@@ -221,10 +253,104 @@ theorem pngAdvanced_le (data : List Nat) (d : Dict) (o) : pngAdvanced data d = .
   repeat' split
   all_goals (intro h; first | (cases h; done) | exact pngRows_le _ _ _ _ _ _ h)
 
+/-! ### TIFF predictor keeps the length -/
+
+@[simp] theorem bitsOfNat_length (w x : Nat) : (bitsOfNat w x).length = w := by
+  induction w with
+  | zero => rfl
+  | succ w ih => simp [bitsOfNat, ih]
+
+theorem flatMap_bits_length (w : Nat) : ∀ l : List Nat, (l.flatMap (bitsOfNat w)).length = l.length * w := by
+  intro l
+  induction l with
+  | nil => simp
+  | cons x xs ih => simp [List.flatMap_cons, ih, Nat.succ_mul, Nat.add_comm]
+
+/-- exactly `n` groups when the length is `n * k` -/
+theorem groupsOf_length {α} (k : Nat) (hk : 0 < k) : ∀ (n fuel : Nat) (l : List α), l.length = n * k → n < fuel →
+    (groupsOf k fuel l).length = n := by
+  intro n
+  induction n with
+  | zero =>
+    intro fuel l hl hf
+    have : l = [] := by simpa using hl
+    subst this
+    cases fuel <;> simp [groupsOf]
+  | succ n ih =>
+    intro fuel l hl hf
+    obtain ⟨fuel, rfl⟩ : ∃ f, fuel = f + 1 := ⟨fuel - 1, by omega⟩
+    have hne : l.isEmpty = false := by
+      cases l with
+      | nil => simp [Nat.succ_mul] at hl; omega
+      | cons _ _ => rfl
+    simp only [groupsOf, hne, Bool.false_eq_true, false_or]
+    rw [if_neg (by omega)]
+    simp only [List.length_cons]
+    rw [ih fuel (l.drop k) (by simp [hl, Nat.succ_mul]) (by omega)]
+
+@[simp] theorem tiffUndiff_length (colors bpc : Nat) : ∀ (l : List Nat) (seen : Array Nat),
+    (tiffUndiff colors bpc seen l).length = l.length := by
+  intro l
+  induction l with
+  | nil => intro _; rfl
+  | cons x xs ih => intro seen; simp [tiffUndiff, ih]
+
+theorem tiffUnRow_length (colors samples bpc : Nat) (hb : 0 < bpc) (row : List Nat)
+    (hT : samples * bpc ≤ 8 * row.length) : (tiffUnRow colors samples bpc row).length = row.length := by
+  unfold tiffUnRow
+  split
+  · simp
+  · have hbits : (row.flatMap (bitsOfNat 8)).length = row.length * 8 := flatMap_bits_length 8 row
+    have htake : ((row.flatMap (bitsOfNat 8)).take (samples * bpc)).length = samples * bpc := by
+      rw [List.length_take, hbits]; omega
+    have hg := groupsOf_length bpc hb samples (samples + 1) _ htake (Nat.lt_succ_self _)
+    simp only [List.length_map]
+    refine groupsOf_length 8 (by omega) row.length _ _ ?_ (Nat.lt_succ_self _)
+    simp only [List.length_append, flatMap_bits_length, tiffUndiff_length, List.length_map, hg,
+      List.length_drop, hbits]
+    omega
+
+theorem tiffRows_length (rb colors samples bpc : Nat) (hb : 0 < bpc) (_hrb : 0 < rb)
+    (hT : samples * bpc ≤ 8 * rb) : ∀ (fuel : Nat) (data : List Nat),
+    (tiffRows rb colors samples bpc fuel data).length = data.length := by
+  intro fuel
+  induction fuel with
+  | zero => intro data; rfl
+  | succ fuel ih =>
+    intro data
+    simp only [tiffRows]
+    split
+    · rfl
+    · have hlen : (data.take rb).length = rb := by simp [List.length_take]; omega
+      rw [List.length_append, ih, tiffUnRow_length _ _ _ hb _ (by omega), hlen]
+      simp; omega
+
+theorem tiffPredictor_length (data : List Nat) (d : Dict) (o) : tiffPredictor data d = .ok o →
+    o.length = data.length := by
+  unfold tiffPredictor
+  simp only []
+  intro h
+  split at h
+  · cases h
+  · rename_i hbpc
+    split at h
+    · cases h
+    · split at h
+      · cases h
+      · split at h
+        · cases h
+        · split at h
+          · cases h; rfl
+          · cases h
+            have hpos : 0 < asUsize (d.bpc.asInt.getD 8) := by
+              have := Classical.not_not.mp hbpc; omega
+            exact tiffRows_length _ _ _ _ hpos (by omega) (by rw [Nat.mul_comm 8]; omega) _ _
+
 theorem applyPredictor_le (data : List Nat) (p : Nat) (d : Dict) (o) :
     applyPredictor data p d = .ok o → o.length ≤ data.length := by
   unfold applyPredictor
   repeat' split
-  all_goals (intro h; first | (cases h; exact Nat.le_refl _) | exact pngAdvanced_le _ _ _ h)
+  all_goals (intro h; first | (cases h; exact Nat.le_refl _) | exact pngAdvanced_le _ _ _ h |
+    exact Nat.le_of_eq (tiffPredictor_length _ _ _ h))
 
 end OxiVerif.Flt
